@@ -19,13 +19,25 @@ func TestReplay(t *testing.T) { prop.Replay(t, nil) }
 
 var tokens = append(append([]string{}, gen.TokHTML...), "\\", "\\n", "\\\"", "\t", "\v", "\x1b", "\x7f")
 
+// strOrHot: short token strings, and now and then a longer one dense with characters that become entities.
+func strOrHot() *rapid.Generator[gen.Item] {
+	str := gen.StrItem(tokens, 4)
+	hot := gen.ExpandingString([]string{"<", "&", "\"", "'", ">", "&amp;", "\u00a0"})
+	return rapid.Custom(func(t *rapid.T) gen.Item {
+		if gen.Rarely(t, "hot", 12) {
+			return gen.S(hot.Draw(t, "hot-text"))
+		}
+		return str.Draw(t, "str")
+	})
+}
+
 func caseGen() *rapid.Generator[Case] {
 	max := 8
 	if h.Thorough() {
 		max = 14
 	}
 	sg := gen.ScriptGen(gen.ScriptOpts{
-		Item:       gen.StrItem(tokens, 4),
+		Item:       strOrHot(),
 		MinOps:     0,
 		MaxOps:     max,
 		MaxCells:   4,
